@@ -13,7 +13,7 @@ pub fn mon() -> Mon {
         run,
         finish,
         replay,
-        rule: "The 6 control response encoders x all 6 completion codes x every status/type enum combination x EID previously stored through set_eid on the response half (all 256 values; the request half holds a different value) x random UUIDs x 0-33 message types x vendor fields of 0-7 bytes x selector 0..255, into poisoned buffers. Bytes 9.. are compared with literal layouts: (b9 & 0xE0) == 0, b10 == command code, b11 == completion code, and for Success the command's fields in DSP0236 order. Non-trivial = a response packet was judged; distinct = distinct (form, body bytes).",
+        rule: "The 6 control response encoders x all 6 completion codes x every status/type enum combination x EID previously stored through set_eid on the response half (all 256 values; the request half holds a different value) x random UUIDs x 0-33 message types x vendor fields of 0-7 bytes x selector 0..255, into poisoned buffers; plus the control responses process_packet encodes (header bits and command code). Bytes 9.. are compared with literal layouts: (b9 & 0xE0) == 0, b10 == command code, b11 == completion code, and for Success the command's fields in DSP0236 order. Non-trivial = a response packet was judged; distinct = distinct (form, body bytes).",
         assumptions: &[
             "the instance-ID bits of byte 9 are not judged (C07 does not mention them; C12 does)",
             "for a non-Success completion code only bytes 9-11 are constrained",
@@ -74,6 +74,12 @@ fn run(cfg: &RunCfg) -> Report {
     let mut rep = Report::new();
     let p = plan(cfg);
     for_each_call(cfg, "c07", &p, &mut |c, _| check(c, &mut rep));
+    {
+        let n = if cfg.is_small() { 200 } else { cfg.pick(40_000, 4_000_000) };
+        let mut rrep = Report::new();
+        for_each_response(cfg, "c07-responder", n, &mut |req, resp, who, rep| check_response(req, resp, who, rep), &mut rrep);
+        rep.merge(rrep);
+    }
     // exhaustive: all 256 stored EIDs x all enum combinations x all completion codes (Set/Get EID)
     if !cfg.is_small() {
         let mut rng = cfg.rng("c07-eids");
@@ -110,6 +116,31 @@ fn run(cfg: &RunCfg) -> Report {
     rep
 }
 
+/// Control responses encoded by process_packet: header bits clear, command code of the command
+/// being answered (the completion code is the library's own choice there and is not judged).
+pub fn check_response(req: &[u8], resp: &[u8], who: &crate::libapi::CtxCfg, rep: &mut Report) {
+    rep.eval();
+    rep.class("responder:response");
+    rep.nontrivial(hash_bytes(0x77, &resp[9..]));
+    let mut bad = |what: &str, detail: String| {
+        rep.violation(
+            &format!("process_packet-response:{}", what),
+            || format!("{}; request {} -> response {}", detail, crate::json::hex(req), crate::json::hex(resp)),
+            || format!("resp|{}|{}", who.encode(), crate::json::hex(req)),
+        );
+    };
+    if resp.len() < 13 {
+        bad("length", "no room for a completion code".into());
+        return;
+    }
+    if resp[9] & 0xE0 != 0 {
+        bad("ctrl-header-bits", format!("byte 9 {:#04x}: Rq/D/reserved not clear", resp[9]));
+    }
+    if resp[10] != req[10] {
+        bad("command-code", format!("command code {:#04x} != the command being answered {:#04x}", resp[10], req[10]));
+    }
+}
+
 fn finish(rep: &mut Report, cfg: &RunCfg) {
     floor(rep, cfg, 20_000);
     if !cfg.is_small() {
@@ -127,6 +158,9 @@ fn finish(rep: &mut Report, cfg: &RunCfg) {
 }
 
 fn replay(case: &str, rep: &mut Report) -> Result<(), String> {
+    if let Some(rest) = case.strip_prefix("resp|") {
+        return replay_response(rest, rep, &mut |q, r, w, rep| check_response(q, r, w, rep));
+    }
     let c = Call::decode(case).ok_or("cannot parse case")?;
     check(&c, rep);
     Ok(())
